@@ -304,9 +304,4 @@ pub fn find_event<'a>(events: &'a Vec<Event>, ty: &str) -> (r: Option<&'a Event>
 pub fn find_attribute<'a>(attributes: &'a Vec<Attribute>, key: &String) -> (r: Option<&'a Attribute>)
     ensures r is Some <==> has_attr(attributes@, key@), r is Some ==> r->Some_0.value@ == attr_value(attributes@, key@) && r->Some_0.key@ == key@,
 { unimplemented!() }
-// Integer::from_str is string code of margined_common (T6; its agreement with Display is conformance-tested in replay/t19)
-pub uninterp spec fn str_int(s: Seq<char>) -> Option<int>;
-#[verifier::external_body]
-pub fn integer_from_str(s: &str) -> (r: StdResult<Integer>)
-    ensures r is Ok <==> str_int(s@) is Some, r is Ok ==> r->Ok_0.to_int() == str_int(s@)->Some_0,
-{ unimplemented!() }
+// Integer::from_str is extracted and verified (specs/common_integer.vrs); str_int is defined there
